@@ -214,6 +214,8 @@ def dependency_closure(prop, units):
         for name, meta in b.fns.items():
             if meta.get('assumed') or meta.get('ghost') or meta.get('first') is None:
                 continue
+            if meta.get('expect_fail') and prop not in meta.get('props', []):
+                continue
             body = '\n'.join(t for t, o in zip(b.lines[meta['first'] - 1:meta['last']], b.origin[meta['first'] - 1:meta['last']]) if o['k'] == 'src')
             defs.setdefault(meta.get('src_name') or name, []).append((u['name'], name, meta, body))
     by_out = {}
@@ -340,8 +342,10 @@ def _check_property(prop, tier, seed, mine, scratch, findings, t0):
                     # stale finding: the obligation verifies now -> nothing to report
                     fn_rows.append({'unit': uname, 'fn': name, 'status': 'finding-obligation verifies (stale finding)', 'ms': res and res['time_ms']})
                     continue
-                if not listed:
-                    violations.append((r, errs[0] if errs else {'fn': name, 'message': 'failed', 'text': '', 'rendered': ''}))
+                if not listed or not witness_manifests(fid):
+                    # not a listed finding, or the listed witness no longer fails while the obligation still does:
+                    # a different violation in the same region
+                    violations.append((r, errs[0] if errs else {'fn': name, 'message': 'failed', 'text': '', 'rendered': '', 'definite': True}))
                     continue
                 known_lines.append((fid, listed[0], errs))
                 fn_rows.append({'unit': uname, 'fn': name, 'status': 'known-finding obligation fails as listed', 'ms': res and res['time_ms']})
@@ -430,7 +434,11 @@ def _check_property(prop, tier, seed, mine, scratch, findings, t0):
             out_lines.append('VIOLATION property=%s replay=%s no-failing-input-found' % (prop, rp))
         samples.append({'failed_obligation': oname})
 
+    seen_f = set()
     for fid, listed, errs in known_lines:
+        if fid in seen_f:
+            continue
+        seen_f.add(fid)
         out_lines.append('KNOWN-FINDING: property=%s %s' % (prop, listed.get('line', '').split(' ', 2)[-1]))
 
     # ---------------- evidence ----------------
@@ -475,6 +483,25 @@ def _check_property(prop, tier, seed, mine, scratch, findings, t0):
             print('UNSTABLE property=%s %s' % (prop, u))
     print('OK property=%s obligations=%d discharged=%d wall=%.1fs' % (prop, obligations, discharged, wall))
     return 0
+
+
+_WITNESS = {}
+
+
+def witness_manifests(fid):
+    """Replays the listed witness of a known finding against the real crate (replay crate, public API)."""
+    if fid in _WITNESS:
+        return _WITNESS[fid]
+    d = os.path.join(VERIF, 'replay')
+    try:
+        subprocess.run(['cargo', 'build', '--offline', '-q'], cwd=d, env=dict(os.environ, CARGO_NET_OFFLINE='true'),
+                       capture_output=True, text=True, timeout=600)
+        p = subprocess.run([os.path.join(d, 'target', 'debug', 'astrolabe-verif-replay'), 'witness', fid],
+                           capture_output=True, text=True, timeout=120)
+        _WITNESS[fid] = p.stdout.strip().startswith('MANIFESTS')
+    except Exception:
+        _WITNESS[fid] = False
+    return _WITNESS[fid]
 
 
 def _load_baseline():
